@@ -168,9 +168,10 @@ func (am *AppMapper) mapResponse(stmt []*sysl.Statement, appName string) map[str
 		}
 
 		if strings.Contains(stmt[i].GetRet().Payload, "<:") {
-			returnStatement := strings.Split(stmt[i].GetRet().Payload, " <: ")
-			returnName = returnStatement[0]
-			returnType = am.mapReturnType(returnStatement[1], appName)
+			// the payload is free text: the spaces around "<:" are as written in the source (`ok<:Foo`, `ok <:Foo`)
+			returnStatement := strings.SplitN(stmt[i].GetRet().Payload, "<:", 2)
+			returnName = strings.TrimSpace(returnStatement[0])
+			returnType = am.mapReturnType(strings.TrimSpace(returnStatement[1]), appName)
 		} else {
 			returnType = am.mapReturnType(stmt[i].GetRet().Payload, appName)
 			// Default return name of 200
